@@ -8,10 +8,11 @@
       - [zp_in_range]  : the radicand ZP of cowat is >= 0 wherever range checking lets cowat run.
     These are statements about exact real arithmetic on the doubles' exact values, not about the
     rounded computation. *)
+Set Warnings "-ambiguous-paths,-notation-overridden".
 From Coq Require Import ZArith QArith Qreals Reals List Bool Lra.
 From Coquelicot Require Import Coquelicot.
 From Interval Require Import Tactic.
-From P Require Import Expr Bounds Tsat.
+From P Require Import Expr Common BoundsDefs.
 From Gen Require Import GenThermo GenTraced.
 Import ListNotations.
 Close Scope Q_scope.
@@ -151,20 +152,3 @@ Proof.
   apply zp_on_saturation_line. q2r. lra.
 Qed.
 
-(** hence, for the current source with its own sat: cowat with range checking on returns a value
-    exactly on 0.01 <= t <= 350, sat(t) <= p <= 100 MPa *)
-Lemma cowat_bounds_67 t p :
-  (cowat_in_range fn67 t p -> has_value (runR cowat_on_traced fn67 coef_cowat [t; p])) /\
-  (~ cowat_in_range fn67 t p -> runR cowat_on_traced fn67 coef_cowat [t; p] = RNone).
-Proof. apply cowat_bounds. apply zp_in_range. Qed.
-
-(** and tsat inverts the current source's sat on the whole interval, for any root finder
-    meeting its specification *)
-Lemma sat67_tsat_inverse (solve : R -> R) (coef : nat -> R) :
-  (forall p, sat67 (Q2R d001) <= p <= Q2R Pc1_Q -> Q2R d001 <= solve p <= Q2R Tc1_C_Q /\ sat67 (solve p) = p) ->
-  forall t, Q2R d001 <= t <= Q2R Tc1_C_Q ->
-  tsat_on sat67 solve coef (sat67 t) = RRet [t] /\ tsat_off sat67 solve coef (sat67 t) = RRet [t].
-Proof.
-  intros Hs t Ht. apply tsat_of_sat; [exact Hs|exact sat67_increasing|exact Ht|].
-  rewrite sat67_at_Tc1. lra.
-Qed.
